@@ -153,9 +153,9 @@ def rule_validator_coverage(chk):
                              detail='pointer set-up is emitted for %s-array names of origin %s but the '
                                     'validated set only has origins %s (PRECLOSED = symbols reached through other precomputed '
                                     'symbols, e.g. RHOIJ1 -> RHOIJ -> rho)' % (role, sorted(want), sorted(tg & {'SIG', 'PRE', 'PRECLOSED'})))
-            elif sd not in tg:
+            elif sd not in tg or notsd in tg:
                 chk.violated('validator-covers-emitted-names', '%s:wrong-side' % role, node=c, file=AE,
-                             func=fn.name, detail='validated set is not the %s-side names (tags %s)' % (role, sorted(tg)))
+                             func=fn.name, detail='validated set is not exactly the %s-side names (provenance %s): names of the other side are compared with this array - e.g. a one-sided kernel symbol (WJ reads s_h) is then demanded from the wrong array and its real user goes unchecked' % (role, sorted(tg)))
             else:
                 chk.holds('validator-covers-emitted-names', role, node=c, file=AE, func=fn.name,
                           detail='validated origins %s >= emitted origins %s' % (sorted(tg), sorted(want)))
